@@ -163,8 +163,50 @@ def history(ctx, steps):
     ctx.sample(dict(stream=s.label, first_lines=s.lines[:12]))
 
 
+def declare_orders(ctx, n, perm, by_constructor):
+    """declare n names with explicit levels in the order `perm` (a level sequence that
+    never leaves a gap is not required by BDD(levels): the constructor declares in dict
+    order and may pass through gaps; what must hold is the final state)"""
+    import itertools
+    s = ctx.session(f'declare n={n} levels in order {perm} constructor={by_constructor}')
+    if by_constructor:
+        s.op(0, 'new', {v: l for v, l in zip(range(n), perm)})
+    else:
+        s.op(0, 'new', {})
+        # bottom-up so that no call leaves a gap: names in increasing level order
+        for v in sorted(range(n), key=lambda v: perm[v]):
+            s.op(0, 'add_var', v, perm[v])
+    from .base import Mgr
+    M = Mgr.__new__(Mgr)
+    M.ctx, M.nv, M.m, M.names, M.s, M.held = ctx, n, 0, list(range(n)), s, []
+    ctx.case(('declare-orders', n, tuple(perm), by_constructor), True)
+    ctx.count('declare-orders')
+    if not s.ok():
+        ctx.violation('C14:declare-rejected', 'a valid set of explicit levels was rejected', M.case())
+        return
+    if not views_ok(ctx, M, 'after declarations'):
+        return
+    bad = oracle.check_table(M.b)
+    if bad:
+        ctx.violation('C14:not-canonical', f'after declaring levels {perm}: {bad[:3]}', M.case())
+        return
+    # the manager works: parity of all variables
+    t = 0
+    for k in range(1 << n):
+        if bin(k).count('1') % 2:
+            t |= 1 << k
+    u = M.build(t)
+    if u is None or M.tt(u) != t:
+        ctx.violation('C14:function-changed', 'parity built after the declarations is wrong', M.case())
+
+
 def run(ctx):
     q = ctx.quick
+    import itertools
+    for n in (1, 2, 3) if q else (1, 2, 3, 4):
+        for perm in itertools.permutations(range(n)):
+            declare_orders(ctx, n, perm, True)
+            declare_orders(ctx, n, perm, False)
     gen.undeclare_scenarios(ctx, 'C14:not-canonical', 'C14', quick=q)
     for _ in range(40 if q else 400):
         history(ctx, 30 if q else 60)
